@@ -345,6 +345,60 @@ def reply_sweep(ctx, model, nvec, profile, stats):
                                 ctx.violation("correspondence:C06.reply", case, found_input=False)
 
 
+def inside_sweep(ctx, model, nvec, profile, stats):
+    """the answer to a request arrives while the request is still being handed down (read by the reader thread, or a
+    transport that answers synchronously): still exactly one entity of the documented class, and exactly one stanza
+    out.  Nothing in C06's statement orders the sender's return before the answer's arrival."""
+    K = kinds()
+    for rq in K.REQS:
+        if len(ctx.violations) >= 8:
+            break
+        for ax in (0, 1):
+            for flags in (FLAGSETS[0], FLAGSETS[-1]):
+                fl = dict(zip(R.FLAGS, flags))
+                if not (rq["module"] is None or fl[rq["module"]]):
+                    continue
+                for rtype in ("result", "error"):
+                    for _ in range(nvec):
+                        seed = ctx.rng.getrandbits(48)
+                        entity, mkreply = rq["gen"](random.Random(seed))
+                        rig = R.Rig(flags, ax, profile)
+                        ser = R.canon(entity.toProtocolTreeNode())
+                        reply = mkreply(entity.getId()) if rtype == "result" else K._err(entity.getId(), K.SRV)
+                        ups, outs, exc, delivered = rig.send_answered_inside(entity, reply)
+                        stats["evaluations"] += 1
+                        stats["reply_cases"] += 1
+                        stats["inside_cases"] = stats.get("inside_cases", 0) + 1
+                        exp_cls = rq[rtype]
+                        got = [type(u).__name__ for u in ups]
+                        case = {"request": rq["name"], "reply_type": rtype, "flags": fl, "axolotl": ax,
+                                "gen_seed": seed, "answer": "delivered from inside the bottom layer's send() of the request",
+                                "request_stanza": R.show(ser), "reply": R.show(reply), "observed_up": got,
+                                "expected_up": [exp_cls] if exp_cls else [],
+                                "stanzas_out": [R.show(R.canon(o)) for o in outs]}
+                        if not delivered:
+                            continue                  # the request never reached the bottom: judged by reply_sweep
+                        if exc is not None:
+                            case["exception"] = repr(exc)
+                            ctx.violation("oracle:no-error", case)
+                        if (rtype == "result" or exp_cls is not None) and got != ([exp_cls] if exp_cls else []):
+                            ctx.violation("oracle:reply_once", case)
+                        if [R.canon(o) for o in outs] != [ser]:
+                            ctx.violation("oracle:send_once", case)
+                        if model is not None:
+                            ops = [[1, R.entity_features(entity)], [0, R.node_features(reply)]]
+                            res = model.call("run_trace", model_arg(flags, ax, ops))
+                            ok = not isinstance(res, tuple)
+                            if ok:
+                                o1 = R.norm_actions(R.abstract_obs([], outs, exc, ser))
+                                o2 = R.norm_actions(R.abstract_obs(ups, [], None))
+                                ok = norm_model(res[0])[0] == o1 and norm_model(res[1])[0] == o2
+                            if not ok:
+                                stats["mismatches"] += 1
+                                case["model"] = jsonable(res)
+                                ctx.violation("correspondence:C06.reply-inside-send", case, found_input=False)
+
+
 def traffic_sweep(ctx, model, nvec, profile, stats, judge_answers=False):
     """request that registers a callback; then traffic that is NOT its reply -- a server ping (type get) carrying the
     very id of the pending request, a get/set iq with that id, a reply for another id, a message -- then the reply:
